@@ -33,6 +33,7 @@ type Contract struct {
 	StoreGuards []*Clause    // storeguard[label] T.f: expr - must hold whenever the unit stores to field f of a T (Raw = "T.f"; value = the stored value)
 	ChanSends   []*Clause    // chansend[label]: expr over ch, val - must hold for every channel send (statement or select case) of the unit
 	CallPres    []*Clause    // callpre[label] <callee name>: expr over recv, arg0.. - must hold at every static call of that function in the unit (Raw = callee name)
+	RetGuards   []*Clause    // returnguard[label]: expr - obligation where the function is about to return (before its deferred calls run); locals, parameters, named results and old() are in scope
 	DynEnsures  []*Clause    // dynensures[label] <FuncTypeName>: expr over arg0.., result0.. - ASSUMED of every call of a function value of that named type (Raw = type name)
 	SafetyKinds []string     // "safety k1 k2": only these kinds of safety obligations (empty: all)
 	DynCalls    []*Clause    // dyncall[label] <FuncTypeName>: expr over arg0.. - obligation at every call of a function value of that named type (Raw = type name)
@@ -270,7 +271,7 @@ func parseCExpr(text string) (ast.Expr, string, error) {
 }
 
 var clauseKeywords = map[string]bool{
-	"func": true, "props": true, "ghostensures": true, "case": true, "assume": true, "carve": true, "caseall": true, "commute": true, "sortby": true, "assumeframe": true, "guarded": true, "guardedfield": true, "dyncall": true, "dynensures": true, "storeguard": true, "chansend": true, "callpre": true, "mode": true, "requires": true, "ensures": true, "invariant": true,
+	"func": true, "props": true, "ghostensures": true, "case": true, "assume": true, "carve": true, "caseall": true, "commute": true, "sortby": true, "assumeframe": true, "guarded": true, "guardedfield": true, "dyncall": true, "dynensures": true, "returnguard": true, "storeguard": true, "chansend": true, "callpre": true, "mode": true, "requires": true, "ensures": true, "invariant": true,
 	"modifies": true, "safety": true, "overflow": true, "inline": true, "trusted": true, "dispatch": true,
 	"let": true, "spec": true, "external": true, "uf": true, "params": true, "results": true,
 	"global": true, "noinline": true, "nocontract": true, "expand": true, "split": true, "strictpkgs": true, "modcomps": true, "axiom": true, "uses": true, "scan": true, "witness": true, "havoc": true, "inlineall": true, "unroll": true,
@@ -517,6 +518,10 @@ func (cs *ContractSet) parseContractSource(pkgPath, filename string, src []byte)
 				if c := mk(strings.TrimSpace(rest[colon+1:])); c != nil {
 					c.Raw = strings.TrimSpace(rest[:colon])
 					cur.DynCalls = append(cur.DynCalls, c)
+				}
+			case "returnguard":
+				if c := mk(strings.TrimPrefix(strings.TrimSpace(rest), ":")); c != nil {
+					cur.RetGuards = append(cur.RetGuards, c)
 				}
 			case "dynensures":
 				// dynensures[label] <FuncTypeName>: expr over arg0.., result0..  (assumption)
